@@ -118,6 +118,22 @@ impl Args {
         }
         a
     }
+    /// For `#[test]`-hosted monitors (no argv): VERIF_PROP, VERIF_TIER, VERIF_SEED, VERIF_REPLAY.
+    pub fn from_env() -> Args {
+        let tier = match std::env::var("VERIF_TIER").as_deref() {
+            Ok("thorough") => Tier::Thorough,
+            Ok("miri") => Tier::Miri,
+            _ => Tier::Quick,
+        };
+        Args {
+            prop: std::env::var("VERIF_PROP").unwrap_or_default(),
+            tier,
+            seed: std::env::var("VERIF_SEED").ok().and_then(|s| s.parse().ok()).unwrap_or(1),
+            replay: std::env::var("VERIF_REPLAY").ok().filter(|s| !s.is_empty()),
+            shard: (0, 1),
+            rest: vec![],
+        }
+    }
     pub fn budget(&self, quick: usize, thorough: usize, miri: usize) -> usize {
         match self.tier {
             Tier::Quick => quick,
